@@ -293,7 +293,10 @@ int aws_mem_realloc(struct aws_allocator *allocator, void **ptr, size_t oldsize,
     void *newptr = allocator->mem_acquire(allocator, newsize);
     AWS_PANIC_OOM(newptr, "Unhandled OOM encountered in aws_mem_acquire with allocator");
 
-    memcpy(newptr, *ptr, oldsize);
+    if (oldsize > 0) {
+        /* *ptr may be NULL when oldsize is 0 (growing from nothing); memcpy() must not be given a NULL source */
+        memcpy(newptr, *ptr, oldsize);
+    }
     memset((uint8_t *)newptr + oldsize, 0, newsize - oldsize);
 
     aws_mem_release(allocator, *ptr);
